@@ -43,9 +43,25 @@ def _strip_mod(d: str) -> str:
     return d.split(".", 1)[1] if "." in d else d
 
 
+_TABLE_NAMES: set[str] = {"original_methods"}
+
+
+def _table_names(f: FuncInfo) -> set[str]:
+    """Names that hold the table of original methods inside f: locals bound to get_original_methods() and the
+    parameters of f (the restore function receives the table as its argument)."""
+    out = set(f.params)
+    for n in own_nodes(f.node):
+        if isinstance(n, (ast.Assign, ast.AnnAssign)) and getattr(n, "value", None) is not None and any(
+                isinstance(x, ast.Call) and (dotted_of(x.func) or "").endswith("get_original_methods") for x in ast.walk(n.value)):
+            for t in n.targets if isinstance(n, ast.Assign) else [n.target]:
+                if isinstance(t, ast.Name):
+                    out.add(t.id)
+    return out
+
+
 def _om_key(e) -> str | None:
-    """original_methods["K"] -> K"""
-    if isinstance(e, ast.Subscript) and isinstance(e.value, ast.Name) and e.value.id == "original_methods":
+    """<table>["K"] -> K"""
+    if isinstance(e, ast.Subscript) and isinstance(e.value, ast.Name) and e.value.id in _TABLE_NAMES:
         if isinstance(e.slice, ast.Constant) and isinstance(e.slice.value, str):
             return e.slice.value
     return None
@@ -103,6 +119,8 @@ def rule_r1(ctx):
                   construct=f"capture {key}")
     wrap_keys, rest_keys = {}, {}
     for (fn, table, what) in ((wrap_f, wrap_keys, "wrap"), (rest_f, rest_keys, "restore")):
+        _TABLE_NAMES.clear()
+        _TABLE_NAMES.update(_table_names(fn))
         for target, value, stmt in _assign_targets(fn):
             tkey = _strip_mod(target)
             is_prop = isinstance(value, ast.Call) and dotted_of(value.func) == "property"
@@ -134,8 +152,9 @@ def rule_r1(ctx):
                   construct=f"{name}: missing={sorted(missing)} extra={sorted(extra)}")
     # wrap returns the captured table
     rets = [n for n in own_nodes(wrap_f.node) if isinstance(n, ast.Return)]
-    ok = bool(rets) and all(isinstance(r.value, ast.Name) and r.value.id == "original_methods" for r in rets)
-    assigned = [n for n in own_nodes(wrap_f.node) if isinstance(n, ast.Assign) and norm(n.targets[0]) == "original_methods"]
+    tnames = _table_names(wrap_f) - set(wrap_f.params)
+    ok = bool(rets) and all(isinstance(r.value, ast.Name) and r.value.id in tnames for r in rets)
+    assigned = [n for n in own_nodes(wrap_f.node) if isinstance(n, ast.Assign) and isinstance(n.targets[0], ast.Name) and n.targets[0].id in tnames]
     # the capture is unconditional, at the top of the patching function: the "originals" are whatever the classes hold at
     # the moment of patching (a table captured earlier - at construction - can be stale: another journal may have been
     # entered or left in between)
@@ -299,24 +318,67 @@ def _sig_compatible(lam: ast.Lambda, meth: FuncInfo) -> str | None:
     return None
 
 
-def _stringy(e: ast.expr) -> bool:
+def _stringy(e: ast.expr, mod=None, depth=0) -> bool:
     if isinstance(e, ast.JoinedStr):
         return True
     if isinstance(e, ast.Constant):
         return e.value is None or isinstance(e.value, str)
     if isinstance(e, ast.Call) and dotted_of(e.func) in ("repr", "str", "format"):
         return True
+    if isinstance(e, ast.Call) and isinstance(e.func, ast.Attribute) and e.func.attr in ("join", "format") and _stringy(e.func.value, mod, depth):
+        return True
+    if isinstance(e, ast.Call) and mod is not None and depth < 2:
+        # a helper of the wrapper module: every value it returns is a string-building expression
+        g = mod.functions.get(dotted_of(e.func) or "")
+        if g is not None:
+            rets = [r for r in own_nodes(g.node) if isinstance(r, ast.Return)]
+            return bool(rets) and all(r.value is not None and _stringy(r.value, mod, depth + 1) for r in rets)
     if isinstance(e, ast.IfExp):
-        return _stringy(e.body) and _stringy(e.orelse)
+        return _stringy(e.body, mod, depth) and _stringy(e.orelse, mod, depth)
     if isinstance(e, ast.BinOp) and isinstance(e.op, (ast.Add, ast.Mod)):
-        return _stringy(e.left)
+        return _stringy(e.left, mod, depth)
     return False
+
+
+_CONSUMING = ("list", "tuple", "set", "frozenset", "sorted", "iter", "next", "len", "sum", "any", "all", "min", "max", "enumerate", "zip", "reversed", "dict")
+
+
+def _consumes_params(fn_node, mod=None, depth=0):
+    """A node inside a details function (lambda or helper) that iterates one of its parameters, or None.
+    The details are built before the wrapped method runs and receive the caller's own argument objects: iterating a
+    one-shot iterable there leaves nothing for the real method (repr()/str()/f-string formatting do not iterate)."""
+    a = fn_node.args
+    pl = [x.arg for x in a.posonlyargs + a.args + a.kwonlyargs]
+    # the receiver (`self`, first parameter of a details lambda) is a container of the library, not a caller-supplied
+    # iterable; only the call's own arguments can be one-shot
+    params = set(pl[1:]) if depth == 0 and pl and pl[0] == "self" else set(pl)
+    body = fn_node.body if isinstance(fn_node.body, list) else [fn_node.body]
+    for st in body:
+        for x in ast.walk(st):
+            if isinstance(x, ast.Call):
+                d = dotted_of(x.func) or ""
+                if d in _CONSUMING and any(isinstance(y_, ast.Name) and y_.id in params for y_ in x.args):
+                    return x
+                if mod is not None and depth < 2 and d in mod.functions:
+                    g = mod.functions[d]
+                    passed = [i for i, arg in enumerate(x.args) if isinstance(arg, ast.Name) and arg.id in params]
+                    if passed:
+                        hit = _consumes_params(g.node, mod, depth + 1)
+                        if hit is not None:
+                            return x
+            if isinstance(x, (ast.For, ast.comprehension)) and isinstance(x.iter, ast.Name) and x.iter.id in params:
+                return x.iter
+            if isinstance(x, ast.Starred) and isinstance(x.value, ast.Name) and x.value.id in params:
+                return x
+    return None
 
 
 def rule_r3_sigs_r5(ctx):
     repo = ctx.repo
     wmod = repo.module(WR)
     wrap_f = repo.func(f"{WR}:wrap_ir_classes")
+    _TABLE_NAMES.clear()
+    _TABLE_NAMES.update(_table_names(wrap_f))
     for target, value, stmt in _assign_targets(wrap_f):
         for call in [x for x in ast.walk(value) if isinstance(x, ast.Call) and dotted_of(x.func) in FACTORIES]:
             fac = dotted_of(call.func)
@@ -351,7 +413,14 @@ def rule_r3_sigs_r5(ctx):
                 ctx.check("R5", f"{target}: details_func is a lambda", False, wrap_f, stmt,
                           "details_func is not a lambda; cannot check what it retains", construct=f"details {target}")
                 continue
-            ctx.check("R5", f"{target}: details value is a string-building expression", _stringy(df.body), wrap_f, df,
+            used = _consumes_params(df, wmod)
+            ctx.check("R3", f"{target}: details_func does not iterate the call's arguments", used is None, wrap_f, used if used is not None else df,
+                      f"the details function iterates an argument of the journaled call (`{norm(used) if used is not None else ''}`): it runs on "
+                      "the caller's own objects before the wrapped method, so a one-shot iterable (generator, map, iter(...)) is exhausted and "
+                      "the real method receives nothing - the operation behaves differently inside a journal",
+                      how="no list()/tuple()/sorted()/len()/for/* over a parameter in the lambda or the module helper it calls",
+                      construct=f"details {target} consumes an argument")
+            ctx.check("R5", f"{target}: details value is a string-building expression", _stringy(df.body, wmod), wrap_f, df,
                       "details_func may return a live IR object, which the journal entry would keep alive",
                       how="lambda body is an f-string / repr() / str() / None", construct=f"details {target}")
             if fac == "_init_wrapper":
